@@ -132,7 +132,7 @@ theorem detect_outside (o : Op3) (rest : Str) (hrest : Validate.parCount '(' ')'
     have hc := wf_none_closed c hw
     have hpc : Validate.parCount '(' ')' (rT c ++ ' ' :: o.br ++ rest) 0 = 0 := by
       rw [List.append_assoc, parCount_rT c none hw]; exact hrest
-    obtain ⟨lm', hs, _⟩ := (((scan_wf c none hw).1 hc) (' ' :: o.br ++ rest) 0 {} (by simp)).1 (opens_zero_viol_none c 0 h0)
+    obtain ⟨lm', hs, _⟩ := (((scan_wf c none hw).1 hc) 0 {} (by simp)).1 (opens_zero_viol_none c 0 h0)
     have hsc : scan '(' ')' (rT c ++ ' ' :: o.br ++ rest) 0 {} = .err cOutside := by
       have e : rT c ++ ' ' :: o.br ++ rest = rT c ++ (' ' :: o.br ++ rest) := by simp
       rw [e, hs]
@@ -157,7 +157,7 @@ theorem detect_outside (o : Op3) (rest : Str) (hrest : Validate.parCount '(' ')'
       have hsc : scan '(' ')' (rT c ++ ' ' :: o.br ++ rest) 0 {} = .rewrite L j := by
         have e : rT c ++ ' ' :: o.br ++ rest = rT c ++ (' ' :: o.br ++ rest) := by simp
         rw [e]
-        exact (((scan_wf c none hw).1 hc) (' ' :: o.br ++ rest) 0 {} (by simp)).2 L j hv
+        exact (((scan_wf c none hw).1 hc) 0 {} (by simp)).2 L j hv _
       obtain ⟨c1, hc1, he⟩ := rewrite_is_step c [] (' ' :: o.br ++ rest) L j (by simpa using hv)
       obtain ⟨hw1, _, ho1, _⟩ := step_preserves c none c1 hw hc1
       obtain ⟨e, hd⟩ := ih c1 (by omega) hw1 fuel
